@@ -292,6 +292,10 @@ func encodeJsonLines(ctx context.Context, fp io.Writer, view *View, options opti
 	}()
 
 	lineBreak := e.LineBreak.Value()
+	if e.LineBreak == text.CR {
+		// JSON Lines records are separated by a line feed; a lone carriage return is not a record separator
+		lineBreak = text.LF.Value()
+	}
 	w := bufio.NewWriter(fp)
 	row := make([]value.Primary, view.FieldLen())
 
